@@ -71,7 +71,15 @@ UNIVERSES = {
 }
 
 
-# ----------------------------------------------------------------------------- policies (universe A)
+# universe W ("wide"): 16 paths per pair, 13 of them cross the denied AS 1-666; the conforming ones sit first / in the
+# middle / last.  Used for recorded and directed histories with MANY paths per lookup result (no exhaustive run).
+UNIVERSES["W"] = {
+    "paths": [{"id": i, "src_eg": 10 + i, "transit": [[(200 + i) if i in (1, 9, 16) else 666, 2, 3]], "dst_in": 40 + i,
+               **({} if i in (1, 9, 16) else {"ok": False})} for i in range(1, 17)],
+    "issues": [{"id": 1, "kind": "ext", "as": 201, "eg": 3}, {"id": 2, "kind": "ext", "as": 199, "eg": 1}],
+}
+
+# ----------------------------------------------------------------------------- policies (universes A and W)
 ACL = {"k": "acl", "s": "- 1-666 +"}             # real sciparse AclPolicy: denies paths crossing AS 1-666 (path 4, variant bad666)
 HOP = {"k": "hop", "s": "0 0 0"}                 # real sciparse HopPatternPolicy: exactly three AS hops (rejects path 3)
 CLO = {"k": "closure", "reject_first_eg": 5}     # arbitrary predicate over the object: metadata with MTU >= 1200, first egress != 5 (rejects path 2)
@@ -85,8 +93,15 @@ POLICY_SETS = {
 VARIANTS = ("nometa", "bad666", "lowmtu")
 
 
-def policy_rejects_id(pol, pid):
-    return {"acl": pid == 4, "hop": pid == 3, "closure": pid == 2, "failing": True}[pol["k"]]
+def policy_rejects_path(pol, p):
+    """verdict by construction of the concrete path definition p (object variant "ok")"""
+    if pol["k"] == "acl":
+        return any(t[0] == 666 for t in p["transit"])      # '- 1-666 +'
+    if pol["k"] == "hop":
+        return len(p["transit"]) + 2 != 3                  # '0 0 0'
+    if pol["k"] == "closure":
+        return p["src_eg"] == pol["reject_first_eg"]
+    return True                                            # failing
 
 
 def policy_rejects_variant(pol, v):
@@ -99,7 +114,7 @@ def policy_rejects_variant(pol, v):
 
 def allowed_ids(policy, u="A"):
     pols = POLICY_SETS[policy]
-    return [p["id"] for p in UNIVERSES[u]["paths"] if not any(policy_rejects_id(q, p["id"]) for q in pols)]
+    return [p["id"] for p in UNIVERSES[u]["paths"] if not any(policy_rejects_path(q, p) for q in pols)]
 
 
 def rejected_variants(policy):
@@ -136,7 +151,7 @@ def issue_pen(i):
 def abstract_universe(u, policy="closure", nometa=()):
     U = UNIVERSES[u]
     paths = U["paths"]
-    allowed = allowed_ids(policy, u) if u == "A" else [p["id"] for p in paths]
+    allowed = allowed_ids(policy, u) if u in ("A", "W") else [p["id"] for p in paths]
     return {
         "paths": [p["id"] for p in paths],
         "hops": {p["id"]: len(p["transit"]) + 2 for p in paths},
@@ -191,7 +206,7 @@ def harness_meta(u, cfg=None, policy="acl", late=1, nometa=(), unit=UNIT, extra=
         q["meta"] = p["id"] not in nometa
         q["ok"] = p.get("ok", True)
         paths.append(q)
-    m = {"ev": "meta", "u": u, "unit": unit, "policy": policy, "policies": POLICY_SETS[policy] if u == "A" else [],
+    m = {"ev": "meta", "u": u, "unit": unit, "policy": policy, "policies": POLICY_SETS[policy] if u in ("A", "W") else [],
          "attach": attach, "late": late, "cfg": cfg, "paths": paths, "issues": U["issues"], "nometa": list(nometa)}
     if extra:
         m.update(extra)
@@ -235,6 +250,7 @@ CONSTANTS
   B2 = {b2}
   B3 = {b3}
   GEN = {gen}
+  ViewDepth = {view_depth}
 INVARIANTS
   {invariants}
 """
@@ -249,7 +265,7 @@ def tla_set(xs):
 
 
 def mc_cfg(u, cfg=None, late=1, fix_expiry=True, fix_fifo=True, exp_choices=(1, 3, 6), depth=5, horizon=9,
-           max_adv=4, adv_set=None, report_set=(1,), gen=False, invariants=None, policy=None, bad_set=(), filter_all=True):
+           max_adv=4, adv_set=None, report_set=(1,), gen=False, invariants=None, policy=None, bad_set=(), filter_all=True, view_depth=1):
     if policy is None:
         policy = "acl" if u == "A" else "none"
     cfg = dict(BASE_CFG, **(cfg or {}))
@@ -267,7 +283,7 @@ def mc_cfg(u, cfg=None, late=1, fix_expiry=True, fix_fifo=True, exp_choices=(1, 
                           adv_set=tla_set(adv_set if adv_set is not None else range(1, max_adv + 1)),
                           report_set=tla_set(report_set), gen="TRUE" if gen else "FALSE", invariants=" ".join(inv),
                           b1=bt[0], b2=bt[1], b3=bt[2], allowed=tla_set(abstract_universe(u, policy)["allowed"]),
-                          bad_set=tla_set(bad_set), filter_all="TRUE" if filter_all else "FALSE")
+                          bad_set=tla_set(bad_set), filter_all="TRUE" if filter_all else "FALSE", view_depth=view_depth)
 
 
 # ----------------------------------------------------------------------------- histories
@@ -284,6 +300,8 @@ def act_key(a):
         return "T" + {"empty": "0", "err": "!", "na": ""}.get(f.get("k"), "?")
     if k == "adv":
         return "+%d" % a["d"]
+    if k == "sleep":
+        return "Z"
     if k == "report":
         return "R%d" % a["i"]
     if k == "ingest":
@@ -342,7 +360,7 @@ class Monitor:
         self.cfg = meta["cfg"]
         self.au = abstract_universe(meta["u"], policy=meta["policy"], nometa=meta.get("nometa", ()))
         self.allowed = set(self.au["allowed"])
-        self.rej = set(rejected_variants(meta["policy"])) if meta["u"] == "A" else set()
+        self.rej = set(rejected_variants(meta["policy"])) if meta["u"] in ("A", "W") else set()
         self.cap = 1
         while self.cap < self.cfg["chan_cap"]:
             self.cap *= 2
@@ -882,7 +900,7 @@ def record_validate(c, prop, binp, name, u, cfg=None, policy=None, attach="vec",
     TLC trace validation against PathSet (Trace_PathSet)."""
     import os
     if policy is None:
-        policy = "acl" if u == "A" else "none"
+        policy = "acl" if u in ("A", "W") else "none"
     extra = {"runs": runs, "steps": steps, "salt": salt, "burst": burst, "p_variant": p_variant}
     if exp_choices:
         extra["exp_choices"] = list(exp_choices)
@@ -1119,3 +1137,58 @@ def realtime_smoke(c, prop, binp, life=14, total_ms=24000):
     c.cov["realtime_samples"] = len(o["samples"])
     c.cov["realtime_lookups_ms"] = o.get("lookups_ms")
     return len(o["samples"])
+
+
+# ----------------------------------------------------------------------------- directed histories (P-monitors only)
+def directed_replay(c, prop, binp, name, meta, histories):
+    """hand-written histories on the real path set; no spec expectation is attached, only the P-monitors judge"""
+    import os
+    from vcommon import write_ndjson
+    inp = os.path.join(c.work, name + "_in.ndjson")
+    outp = os.path.join(c.work, name + "_out.ndjson")
+    write_ndjson(inp, [meta] + [{"h": h} for h in histories])
+    rc, so = c.sh([binp, "replay", inp, outp], timeout=3000)
+    if rc != 0:
+        c.fail_tool("replay harness failed rc=%s %s" % (rc, getattr(c, "last_stderr", "")[-300:]))
+    mon = Monitor(meta)
+    n = 0
+    for line, h in zip(open(outp), histories):
+        run = json.loads(line)
+        if not run["steps"]:
+            c.drift("directed %s: the real path set could not be created (%s)" % (name, run.get("end")))
+            continue
+        n += len(run["steps"]) - 1
+        try:
+            annotate_consumed(run, mon.cap)
+            found = mon.run(run, {prop})
+        except Exception as ex:
+            c.drift("directed %s: run cannot be evaluated (%s: %s)" % (name, type(ex).__name__, ex))
+            continue
+        for v in found:
+            c.violation(v["key"], v["what"] + " [directed history %s, step %d, universe %s, policy %s]" % (hist_key(h), v["step"], meta["u"], meta["policy"]),
+                        {"meta": meta, "h": h, "step": v["step"], "real": run["steps"][v["step"]]})
+    return n
+
+
+def wide_histories():
+    """lookups with 8-16 paths of universe W, most of them rejected by the ACL; conforming ones none / first / last / middle"""
+    bad = [i for i in range(1, 17) if i not in (1, 9, 16)]
+    def fetch(ids, exp):
+        return {"a": "tick", "fetch": {"k": "ok", "paths": [{"id": i, "exp": exp, "v": "ok"} for i in ids]}}
+    H = []
+    for ids in (bad[:8], bad, [1] + bad[:9], bad[:9] + [16], bad[:6] + [9] + bad[6:12], bad[:5] + [1], bad[:6] + [1], bad[:7] + [9, 16],
+                list(reversed(bad)) + [1, 9, 16], [16, 9, 1] + bad):
+        H.append([fetch(ids, 9), {"a": "send"}, {"a": "adv", "d": 4}, fetch(list(reversed(ids)), 14), {"a": "send"}])
+    return H
+
+
+def backoff_histories(n_fail=8):
+    """one successful lookup with a long-lived path, then n consecutive failing lookups, the clock following the REAL
+    object's next maintenance instant (action "sleep"); a send now and then keeps the pair in use"""
+    h = [{"a": "tick", "fetch": {"k": "ok", "paths": [{"id": 1, "exp": 400, "v": "ok"}]}}, {"a": "send"}]
+    for k in range(n_fail):
+        h += [{"a": "sleep"}, {"a": "send"}, {"a": "tick", "fetch": {"k": "err" if k % 3 else "empty"}}]
+    h2 = [{"a": "tick", "fetch": {"k": "err"}}]
+    for k in range(n_fail):
+        h2 += [{"a": "sleep"}, {"a": "send"}, {"a": "tick", "fetch": {"k": "err"}}]
+    return [h, h2]
